@@ -262,3 +262,69 @@ def run(run, P, only=None, units=None):
     run.stats['cmpbound_declined_sites'] = ndecl
     return nsite
 
+
+
+def run_identity(run, P):
+    """R-CMP-BOUND (a bounded comparison that decides identity): two clauses, library-wide.
+    (1) strncmp / strncasecmp bounded by the `.length` of a string record (a run-time length, not the size of a literal) says "one is a
+        prefix of the other".  Where names are told apart that way -- the Observe-counter file keeps one line per resource name -- `temp`
+        also matches `temp2`: rewriting the line of one resource drops the lines of all resources it is a prefix of.  No such call exists
+        today (every strn*cmp in the library is bounded by a literal's size); identity of counted strings is coap_binary_equal() /
+        length equality plus memcmp.
+    (2) where a condition compares a length n with strlen(S) and memcmp()s over n bytes against S, the length comparison is `==`:
+        `n <= strlen(S)` makes every proper prefix of a known name (a truncated URI scheme, the empty string) equal to it."""
+    run.rule('R-CMP-BOUND')
+    n1 = n2 = 0
+    for f in sorted(P.lib_funcs(), key=lambda f: f['name']):
+        nodes = [(ev['loc'], ev['e']) for b, ev in P.events(f) if ev.get('top') or ev['e'].get('k') == 'decl']
+        conds = []
+        for b in f['blocks']:
+            c = (b.get('term') or {}).get('cond')
+            if c is not None:
+                nodes.append(((b['term'].get('loc') or f['loc']), c))
+                conds.append(((b['term'].get('loc') or f['loc']), c))
+        seen = set()
+        for loc, t in nodes:
+            for x in walk(t):
+                if not (isinstance(x, dict) and x.get('k') == 'call' and x.get('fn') in ('strncmp', 'strncasecmp') and len(x.get('a') or ()) == 3):
+                    continue
+                if (loc, short(x)) in seen:
+                    continue
+                seen.add((loc, short(x)))
+                n1 += 1
+                b3 = strip(x['a'][2])
+                bad = isinstance(b3, dict) and b3.get('k') == 'mem' and b3.get('f') == 'length' and b3.get('rec') in STRRECS
+                run.oblige('R-CMP-BOUND', not bad, '%s:strncmp-bound-is-a-literal-size' % f['name'])
+                if bad:
+                    run.violation('R-CMP-BOUND', f['name'], loc, 'prefix-test-decides-identity',
+                                  '`%s` is bounded by the run-time length of one operand: it holds whenever that operand is a PREFIX of the other, so names that extend each other '
+                                  '(temp / temp2, a / a/b) are taken for the same' % short(x)[:70], [])
+        # (2) n op strlen(S) next to memcmp(.., S.., n)
+        strlens = []
+        for loc, c in conds:
+            for x in walk(c):
+                if isinstance(x, dict) and x.get('k') == 'bin' and x.get('op') in ('==', '!=', '<', '<=', '>', '>='):
+                    for a_, b_ in ((x['l'], x['r']), (x['r'], x['l'])):
+                        calls = [y for y in walk(b_) if isinstance(y, dict) and y.get('k') == 'call' and y.get('fn') == 'strlen']
+                        if calls and not [y for y in walk(a_) if isinstance(y, dict) and y.get('k') == 'call']:
+                            strlens.append((loc, x, short(strip(calls[0]['a'][0])), short(a_)))
+        if strlens:
+            mem = []
+            for loc, t in nodes:
+                for y in walk(t):
+                    if isinstance(y, dict) and y.get('k') == 'call' and y.get('fn') in ('memcmp', 'strncmp', 'strncasecmp') and len(y.get('a') or ()) == 3:
+                        mem.append(y)
+            for loc, x, s_txt, n_txt in strlens:
+                hit = [y for y in mem if any(short(strip(a)) == s_txt for a in y['a'][:2]) and n_txt.strip('()') in short(y['a'][2])]
+                if not hit:
+                    continue
+                n2 += 1
+                ok = x['op'] in ('==', '!=')          # `!=` is the same test on the rejecting side
+                run.instance('R-CMP-BOUND', '%s: the length compared over is tested for equality with strlen(%s)' % (f['name'], s_txt[:30]))
+                run.oblige('R-CMP-BOUND', ok, '%s:length-equals-strlen' % f['name'])
+                if not ok:
+                    run.violation('R-CMP-BOUND', f['name'], loc, 'prefix-of-known-name-accepted',
+                                  '`%s` lets the comparison `%s` run over fewer bytes than the known name has: every proper prefix of the name (and the empty string) compares '
+                                  'equal to it' % (short(x)[:60], short(hit[0])[:60]), [])
+    run.instance('R-CMP-BOUND', 'strn*cmp calls bounded by a literal size: %d; strlen-equality sites: %d' % (n1, n2))
+    run.require_count((n1 >= 5 and n2 >= 1) or run.fixture_mode or run.cfg != 'base', 'R-CMP-BOUND(identity): expected >= 5 strn*cmp calls and >= 1 strlen equality next to a memcmp (coap_split_uri_sub)')
